@@ -105,6 +105,12 @@ impl BlockCache {
 		}
 	}
 
+	/// Drops every cached block and value. Needed when table ids / vlog file ids are
+	/// about to be reused for different content (restore from a checkpoint).
+	pub(crate) fn clear(&self) {
+		self.data.clear();
+	}
+
 	/// Inserts a data block into the cache.
 	pub(crate) fn insert_data_block(&self, table_id: u64, offset: u64, block: Arc<Block>) {
 		self.data.insert((KIND_DATA, table_id, offset).into(), Item::Data(block));
